@@ -29,7 +29,7 @@ Ev(i) == Traces[tid].ev[i]
 NEv == Len(Traces[tid].ev)
 NProcs == Traces[tid].cfg.nprocs      \* processes taking part in this trace
 
-NoAcc == [active |-> FALSE, i |-> 0, clearSeen |-> FALSE]
+NoAcc == [active |-> FALSE, i |-> 0, clearSeen |-> FALSE, loaded |-> FALSE]
 
 TInit ==
   /\ tid \in 1..Len(Traces)
@@ -46,17 +46,18 @@ ObsStep(fail) == /\ l' = l + 1 /\ oFail' = fail /\ UNCHANGED <<vars, tid>>
 
 ObsBegin ==
   /\ IsEv("begin")
-  /\ oAcc' = [oAcc EXCEPT ![Ev(l).p] = [active |-> TRUE, i |-> Ev(l).i, clearSeen |-> FALSE]]
+  /\ oAcc' = [oAcc EXCEPT ![Ev(l).p] = [active |-> TRUE, i |-> Ev(l).i, clearSeen |-> FALSE, loaded |-> FALSE]]
   /\ UNCHANGED oLoads /\ ObsStep({})
 ObsLoad ==
   /\ IsEv("op") /\ Ev(l).op = "load"
   /\ oLoads' = [oLoads EXCEPT ![Ev(l).key] = @ + 1]
-  /\ UNCHANGED oAcc
+  /\ oAcc' = [oAcc EXCEPT ![Ev(l).p].loaded = TRUE]
   \* per clear-segment a process loads a sample at most once (a single process: at most one load between clears)
   /\ ObsStep(IF oLoads'[Ev(l).key] > NProcs THEN {"LoadBound"} ELSE {})
 ObsClear ==
   /\ IsEv("op") /\ Ev(l).op = "clear"
-  /\ oLoads' = [i \in Idx |-> 0]
+  \* a load made by an access that is still in flight may be stored after the clear: it stays valid for this segment
+  /\ oLoads' = [i \in Idx |-> Cardinality({p \in Procs : oAcc[p].active /\ oAcc[p].i = i /\ oAcc[p].loaded})]
   /\ oAcc' = [p \in Procs |-> IF oAcc[p].active THEN [oAcc[p] EXCEPT !.clearSeen = TRUE] ELSE oAcc[p]]
   /\ ObsStep({})
 ObsOther ==
